@@ -320,3 +320,11 @@ CHECKS["C05"]["harnesses"].append(
     {"probe": "core", "harness": "Harness_C05_deferFaults", "setup": "Setup_C05_deferFaults", "reach": ["c05.deferfaults"], "workers": 6, "sched": "first",
      "configs_quick": ["single"], "configs_thorough": ["single", "follow", "wl1"], "quick": {"sample_models": 12, "sample_every": 7}, "thorough": {"params": {"budget": 2}, "sample_models": 24, "sample_every": 41, "workers": 12},
      "what": "8 @defer operations with one [two] resolver positions failing or null (incl. a non-null sibling that nulls the object carrying a deferred group), drained without cancellation: the response function ends the sequence (deadlock detection), last payload has no hasNext, no goroutine left"})
+
+CHECKS["C09"]["harnesses"].append(
+    dict(_HTTP, harness="Harness_C09_persisted", setup="Setup_C09_persisted", reach=["c09.persisted.executed", "c09.persisted.refused"], quick={"sample_models": 20, "sample_every": 3},
+         what="the document supplied by an operation-parameter mutator (APQ hash-only request) over GET and POST: 9 documents x operationName x 3 Accept: GET executes only queries, exactly the named operation runs, status follows the outcome"))
+
+CHECKS["C03"]["harnesses"].append(
+    dict(_HTTP, harness="Harness_C03_history", setup="Setup_C03_history", reach=["c03.history"], quick={"sample_models": 20, "sample_every": 2}, thorough={"params": {"hist": 2}, "sample_models": 40, "sample_every": 7},
+         what="request histories through one Server and its POST transport: 1 [2] preceding requests from a 4-request corpus, then each of 10 requests that must be rejected (missing / null / mistyped variables, operation selection, validation, parse): no interceptor, no resolver, errors only"))
